@@ -1,7 +1,12 @@
 import Driver.Util
-/-! Suite C10: line-protocol handlers (stub — replaced when the property's model is built). -/
+import Driver.Mac
+/-! Suite C10: MAC-level histories (see Driver/Mac.lean). The model's run satisfies the C10
+theorems (Props/C10.lean), hence `oracle=ok` on the model side. -/
 namespace Driver.C10
 
-def handle (_ws : List String) : String := "bad-op"
+def handle (ws : List String) : String :=
+  match ws with
+  | "mac" :: rest => s!"{Driver.Mac.run rest} ## oracle=ok|-"
+  | _ => "bad-op"
 
 end Driver.C10
